@@ -21,8 +21,8 @@ class Rule(_Rule):
 
     grammar = r'''
 HTTP-date    = rfc1123-date / rfc850-date / asctime-date
-rfc1123-date = wkday "," SP date1 SP time SP "GMT"
-rfc850-date  = weekday "," SP date2 SP time SP "GMT"
+rfc1123-date = wkday "," SP date1 SP time SP %s"GMT"
+rfc850-date  = weekday "," SP date2 SP time SP %s"GMT"
 asctime-date = wkday SP date3 SP time SP 4DIGIT
 date1        = 2DIGIT SP month SP 4DIGIT
                 ; day month year (e.g., 02 Jun 1982)
@@ -32,13 +32,13 @@ date3        = month SP ( 2DIGIT / ( SP 1DIGIT ))
                 ; month day (e.g., Jun  2)
 time         = 2DIGIT ":" 2DIGIT ":" 2DIGIT
                 ; 00:00:00 - 23:59:59
-wkday        = "Mon" / "Tue" / "Wed"
-            / "Thu" / "Fri" / "Sat" / "Sun"
-weekday      = "Monday" / "Tuesday" / "Wednesday"
-            / "Thursday" / "Friday" / "Saturday" / "Sunday"
-month        = "Jan" / "Feb" / "Mar" / "Apr"
-            / "May" / "Jun" / "Jul" / "Aug"
-            / "Sep" / "Oct" / "Nov" / "Dec"
+wkday        = %s"Mon" / %s"Tue" / %s"Wed"
+            / %s"Thu" / %s"Fri" / %s"Sat" / %s"Sun"
+weekday      = %s"Monday" / %s"Tuesday" / %s"Wednesday"
+            / %s"Thursday" / %s"Friday" / %s"Saturday" / %s"Sunday"
+month        = %s"Jan" / %s"Feb" / %s"Mar" / %s"Apr"
+            / %s"May" / %s"Jun" / %s"Jul" / %s"Aug"
+            / %s"Sep" / %s"Oct" / %s"Nov" / %s"Dec"
 
 token = 1*( %x21 / %x23-27 / %x2A-2B / %x2D-2E / %x30-39 / %x41-5A / %x5E-7A / %x7C / %x7E )
 '''
